@@ -114,6 +114,25 @@ impl<'a> TreeGen<'a> {
         out.push(Node::Space);
     }
     fn inline(&mut self, depth: usize) -> Node {
+        if self.rng.chance(1, 12) {
+            // inline SVG / MathML: elements of another namespace; a type selector without
+            // a namespace matches them by local name like any other element
+            let (root, mid, leafs): (&str, &str, &[&str]) = if self.rng.chance(1, 2) {
+                ("svg", "g", &["text", "title", "desc"])
+            } else {
+                ("math", "mrow", &["mi", "mo", "mn"])
+            };
+            let mut leaf_nodes = vec![self.own()];
+            for _ in 0..self.rng.range(1, 3) {
+                let t = *self.rng.pick(leafs);
+                let o = self.own();
+                leaf_nodes.push(Node::Space);
+                leaf_nodes.push(self.attrs(El::with(t, vec![o])).node());
+            }
+            let midn = self.attrs(El::with(mid, leaf_nodes)).node();
+            let o = self.own();
+            return self.attrs(El::with(root, vec![o, Node::Space, midn])).node();
+        }
         let tag = *self.rng.pick(&INLINE_TAGS);
         let mut kids = vec![self.own()];
         if depth < 6 {
@@ -178,7 +197,7 @@ impl<'a> TreeGen<'a> {
 fn own_tokens(dom: &ODom) -> Vec<(odom::Id, String)> {
     let mut v = Vec::new();
     for (id, n) in dom.nodes.iter().enumerate() {
-        if let Kind::Element { html: true, .. } = &n.kind {
+        if let Kind::Element { .. } = &n.kind {
             if !dom.attached(id) {
                 continue;
             }
@@ -417,7 +436,7 @@ fn run_case(seed: u64, idx: u64, tier: Tier, out: &mut CaseOut) {
     };
     let dom = odom::parse(&input);
     let vocab = Vocab {
-        tags: ["div", "p", "span", "em", "li", "ul", "strong", "blockquote", "a", "code", "body", "b", "i"]
+        tags: ["div", "p", "span", "em", "li", "ul", "strong", "blockquote", "a", "code", "body", "b", "i", "svg", "g", "text", "math", "mrow", "mi", "mo"]
             .iter()
             .map(|s| s.to_string())
             .collect(),
